@@ -73,6 +73,7 @@ type Contract struct {
 	Fresh    bool     // result is freshly allocated
 	Params   []string // optional explicit parameter names (external functions)
 	Holds    []string // mutexes that must be held at entry (also emitted as requires)
+	Callbacks []string // parameters that are function values the callee may invoke (and does nothing else with)
 	Acquires []CExpr
 	Releases []CExpr
 	Raw      []string
@@ -111,7 +112,7 @@ var clauseKeywords = map[string]bool{
 	"requires": true, "ensures": true, "assumes": true, "modifies": true, "arith": true, "safety": true, "loop": true,
 	"invariant": true, "decreases": true, "let": true, "pure": true, "trusted": true, "emits": true,
 	"at": true, "maydiverge": true, "ghost": true, "fresh": true, "params": true, "holds": true,
-	"acquires": true, "releases": true,
+	"acquires": true, "releases": true, "callback": true,
 }
 
 var labelRe = regexp.MustCompile(`^\{([A-Za-z0-9_.\-]+)\}\s*(.*)$`)
@@ -344,6 +345,8 @@ func (cs *ContractSet) parseContractFile(path, pkgPath string, external bool) er
 				}
 				em.Event = strings.TrimSpace(r)
 				cur.Emits = append(cur.Emits, em)
+			case "callback":
+				cur.Callbacks = append(cur.Callbacks, strings.TrimSpace(rest))
 			case "holds":
 				cur.Holds = append(cur.Holds, rest)
 			case "acquires", "releases":
